@@ -50,16 +50,16 @@ MANIFEST = {
     "design_ref": "DESIGN.md section 4 / C13",
 }
 
-MODES = {
-    "quiet": "#int verbose off\n#int timing off\n",
-    "verbose": "#int timing off\n",
-    "history": "#int timing off\n#int history on\n",
-}
-MODE_ECHO = {"quiet": "verbose is off.\ntiming is off.\n", "verbose": "timing is off.\n", "history": "timing is off.\n"}
+# every session starts quietly (the header's own echo -- `Defined Ex0 @ ...` over several lines -- is of no
+# interest); the verbose mode switches the value / type echo on after the header (AFTER_HEADER)
+MODES = {"quiet": "#int verbose off\n#int timing off\n", "verbose": "#int verbose off\n#int timing off\n"}
+MODE_ECHO = {"quiet": "verbose is off.\ntiming is off.\n", "verbose": "verbose is off.\ntiming is off.\n"}
+AFTER_HEADER = {"quiet": [], "verbose": [("#int verbose on\n", "verbose is on.\n", False)]}
 BANNER_END = 'Type "#int help" for more details.\n'
 ECHO = r"(?:[^\n]* @ [^\n]*\n)?"
 ANCHOR = re.compile(r"^\{ALDOR_[A-Za-z0-9_]+\} ")
-CARET = re.compile(r"^\.*\^$")
+FOREIGN = re.compile(r'^"[^"\n]+", line \d+: ?$')
+CARET = re.compile(r"^[.^]*\^$")
 MSG_POS = re.compile(r"^\{ALDOR_[A-Za-z0-9_]+\} \[L(\d+) C(\d+)\] #\d+ \(((?:Fatal )?Error|Warning|Note|Remark)\)")
 CRASH = re.compile(r"Program fault|Compiler bug|segmentation violation|Storage allocation error")
 SIZES_QUICK = [4, 8, 12, 18]
@@ -169,13 +169,18 @@ def header_forms(header):
     return forms
 
 
-def run_loop(aldor, text, base):
-    d = "%s/l%d" % (base, next(_uniq))
-    os.makedirs(d)
-    try:
-        rc, out, err = C.run(C.aldor_base_args(aldor) + ["-gloop", "-Mname"], cwd=d, env=C.aldor_env(), input=text, timeout=180)
-    finally:
-        shutil.rmtree(d, ignore_errors=True)
+def run_loop(aldor, text, base, timeout=150):
+    """One session.  A timeout is retried once (the machine may be oversubscribed; a real hang hangs again)."""
+    for attempt in (0, 1):
+        d = "%s/l%d" % (base, next(_uniq))
+        os.makedirs(d)
+        try:
+            rc, out, err = C.run(C.aldor_base_args(aldor) + ["-gloop", "-Mname"], cwd=d, env=C.aldor_env(), input=text,
+                                 timeout=timeout)
+        finally:
+            shutil.rmtree(d, ignore_errors=True)
+        if rc != 124:
+            break
     return rc, out, err
 
 
@@ -207,9 +212,17 @@ def strip_messages(body):
     while i < len(lines):
         if ANCHOR.match(lines[i]):
             m = MSG_POS.match(lines[i])
+            foreign = False
             msgs.append((int(m.group(1)), int(m.group(2)), m.group(3), lines[i]) if m else (0, 0, "?", lines[i]))
             if i > 0 and keep[i - 1] and CARET.match(lines[i - 1].rstrip("\n")):
                 keep[i - 1] = False
+                # a message about text of ANOTHER file (an included header, a macro's body) is preceded by
+                # `"<file>", line N: ` and the echo of that line: not a position of this session
+                if i > 2 and FOREIGN.match(lines[i - 3]) and keep[i - 3] and keep[i - 2]:
+                    keep[i - 3] = keep[i - 2] = False
+                    foreign = True
+            if foreign:
+                msgs[-1] = (0, 0, msgs[-1][2], msgs[-1][3])
             j = i
             while j < len(lines) and lines[j].strip("\n") != "":
                 keep[j] = False
@@ -223,11 +236,11 @@ def strip_messages(body):
 
 
 def good_regex(steps, mode):
-    """Transcript of a session of accepted steps: each step's expected text, then (verbose modes)
+    """Transcript of a session of accepted steps: each step's expected text, then (verbose mode)
     at most one echo line."""
     if mode == "quiet":
         return re.compile("".join(re.escape(o) for o in steps) + r"\Z", re.S)
-    return re.compile("".join(re.escape(o) + ECHO for o in steps) + r"\Z", re.S)
+    return re.compile("".join(re.escape(o) + ("" if o.startswith("verbose is") else ECHO) for o in steps) + r"\Z", re.S)
 
 
 def session_text(mode, steps):
@@ -254,16 +267,26 @@ def insert_positions(x, forms):
             if f["src"].startswith(m.group(1) + ":"):
                 return list(range(i + 1, n + 1))
         return []
+    m = re.match(r"(f\d+)\(", x["bad_form"])
+    if m:
+        # a function definition: entered only before ANY definition of that name.  Re-entering a definition that
+        # was accepted makes the loop hang, and a REJECTED overload of a name that already has a definition breaks
+        # the existing one (segfault at its next call): findings, probes `redefinition` and `rejected-overload`
+        first = min([i for i, f in enumerate(forms) if f["src"].startswith(m.group(1) + "(")] + [x["fault_form"]])
+        return list(range(0, min(n, first) + 1))
+    if re.match(r"g\d+: [^\n]*? == ", x["bad_form"]):
+        # a constant definition: only before the original (re-entering it makes the loop hang, probe `redefinition`)
+        return list(range(0, min(n, x["fault_form"]) + 1))
     return list(range(0, n + 1))
 
 
-def build_interleaving(hsteps, forms, inserts):
+def build_interleaving(hsteps, forms, inserts, mode="quiet"):
     """inserts: list of (position, bad_form_text).  Returns (steps, flags, line ranges of bad steps)
     where steps/flags cover header steps + forms + inserted bad forms in session order."""
     by_pos = collections.defaultdict(list)
     for pos, b in inserts:
         by_pos[pos].append(b)
-    steps = [(h, "", False) for h in hsteps]
+    steps = [(h, "", False) for h in hsteps] + AFTER_HEADER[mode]
     for i, f in enumerate(forms):
         steps += [(b, "", True) for b in by_pos.get(i, [])]
         steps.append((f["src"], f["expect_out"], False))
@@ -320,7 +343,7 @@ def judge_mixed(mode, steps, rc, out, good_body):
     errs = [(l, c, t) for l, c, sev, t in msgs if "Error" in sev]
     # errors that do not point into the form they belong to: "(After Macro Expansion)" points at the macro's
     # body in the header; the embedded-satisfaction message points at a type expression elsewhere (C06 finding)
-    floating = [e for e in errs if e[0] < first_form or "The interpretation of the type expression" in e[2]]
+    floating = [e for e in errs if e[0] < first_form or "The interpretation of the type expression" in e[2]]   # line 0 = other file
     for lo, hi in rs:
         if any(lo <= l <= hi for l, c, t in errs):
             continue
@@ -338,6 +361,75 @@ def judge_mixed(mode, steps, rc, out, good_body):
             return "good-forms-output-changed"
     elif not good_regex([o for _, o, bad in steps if not bad], mode).match(text):
         return "good-forms-output-changed"
+    return None
+
+
+# ------------------------------------------------------------------ probes of confirmed loop defects
+_H = [('#include "aldor"\n', "", False), ('#include "aldorio"\n', "", False), ("import from MachineInteger;\n", "", False)]
+PROBES = [
+    {"name": "history-mode", "key": "C13 gloop:history-mode:first-value-segfaults", "what": "good", "mode": "verbose",
+     "steps": _H + AFTER_HEADER["verbose"] + [("#int history on\n", "", False), ("g0: MachineInteger := 3;\n", "", False),
+                                              ("stdout << g0 << newline;\n", "3\n", False)]},
+    {"name": "redefinition", "key": "C13 gloop:re-entering-a-constant-definition-hangs", "what": "mixed", "mode": "quiet",
+     "steps": _H + [("g1: MachineInteger := 0;\n", "", False),
+                    ("f1(p0: MachineInteger): MachineInteger == p0 + 1;\n", "", False),
+                    ("stdout << f1(g1) << newline;\n", "1\n", False),
+                    ('f1(p0: MachineInteger): MachineInteger == "s";\n', "", True),
+                    ("stdout << g1 << newline;\n", "0\n", False)]},
+    {"name": "try-conditional-throw", "key": "C13 gloop:toplevel-try-with-throw-under-if:bad-foam-reference", "what": "good",
+     "mode": "quiet",
+     "steps": _H + [("define Ex0Type: Category == with;\n", "", False), ("Ex0: Ex0Type == add;\n", "", False),
+                    ('stdout << "a" << newline;\n', "a\n", False),
+                    ('try {\n    if (false = false) then {\n        throw Ex0;\n    };\n    true\n} catch E in {\n'
+                     '    E has Ex0Type => {\n        stdout << "caught" << newline;\n        true\n    };\n'
+                     '    true => throw E;\n    never;\n};\n', "caught\n", False),
+                    ('stdout << "b" << newline;\n', "b\n", False)]},
+    {"name": "rejected-overload", "key": "C13 gloop:rejected-overload-of-a-defined-function-breaks-the-existing-definition",
+     "what": "mixed", "mode": "quiet",
+     "steps": _H + [("f3(p0: MachineInteger): Boolean == p0 > 0;\n", "", False),
+                    ("stdout << f3(2) << newline;\n", "T\n", False),
+                    ("f3(p0: Boolean, p1: MachineInteger): MachineInteger == g4999;\n", "", True),
+                    ('stdout << "next" << newline;\n', "next\n", False),
+                    ("stdout << f3(2) << newline;\n", "T\n", False)]},
+    {"name": "verbose-if-else", "key": "C13 gloop:verbose-mode:toplevel-if-else-with-branches-of-different-types-rejected",
+     "what": "good", "mode": "verbose",
+     "steps": _H + AFTER_HEADER["verbose"] + [("g0: MachineInteger := 3;\n", "", False),
+                                              ('if g0 > 2 then {\n    g0 := 1;\n} else {\n    stdout << "small" << newline;\n};\n', "", False),
+                                              ("stdout << g0 << newline;\n", "1\n", False)]},
+    {"name": "verbose-try", "key": "C13 gloop:verbose-mode:toplevel-try-aborts(fint.c:3616)", "what": "good", "mode": "verbose",
+     "steps": _H + [("define Ex0Type: Category == with;\n", "", False), ("Ex0: Ex0Type == add;\n", "", False)]
+     + AFTER_HEADER["verbose"]
+     + [('try {\n    stdout << "in" << newline;\n    true\n} catch E in {\n    E has Ex0Type => {\n        true\n    };\n'
+         '    true => throw E;\n    never;\n};\n', "in\n", False),
+        ('stdout << "b" << newline;\n', "b\n", False)]},
+]
+
+
+TRY_THROW = re.compile(r"^try \{\n(?:(?!\} catch ).*\n)*?.*\bthrow\b", re.M)
+IF_ELSE = re.compile(r"^if .*\n(?:[ }].*\n)*?\} else \{", re.M)
+
+
+def known_defect_shapes(forms):
+    """Shapes of top-level forms that hit confirmed loop defects (each has a probe in PROBES): which modes to skip."""
+    skip = set()
+    for f in forms:
+        src = f["src"]
+        if src.startswith("try {"):
+            # a top-level try/catch in the loop: "Bad foam reference" / fint.c:1493, 3616 assertions / segfault as soon as
+            # its body holds a throw, an error, a loop or an exit (probes try-conditional-throw, verbose-try)
+            skip.add("verbose")
+            skip.add("quiet")
+        if src.startswith("if ") and IF_ELSE.match(src):
+            skip.add("verbose")                   # if/else used as a value: branches of different types
+    return skip
+
+
+def class_key(cls, steps, out):
+    """Confirmed loop defects with many instances get one key each."""
+    if any(s.startswith("try {") for s, _, b in steps if not b) and cls in ("loop-crashed", "session-differs-from-batch"):
+        return PROBES[2]["key"]
+    if cls == "loop-crashed" and sum(1 for s, _, b in steps if b and re.match(r"f\d+\(", s)) >= 3:
+        return "C13 gloop:many-rejected-function-definitions:later-segfault"
     return None
 
 
@@ -366,6 +458,16 @@ def run(rep, tier):
             if cls:
                 viol.append(("corpus %s: %s" % (fn, cls), dict(o, observed=obs, corpus=fn), o.get("key")))
 
+    for pr in PROBES:
+        st["probes"] += 1
+        cls, out = _judge_steps(aldor, base, pr["what"], pr["mode"], pr["steps"], timeout=25)
+        if cls:
+            viol.append(("probe %s: %s" % (pr["name"], cls),
+                         {"how_to_replay": "./check C13 --replay <this file>", "what": pr["what"], "mode": pr["mode"],
+                          "steps": [list(x) for x in pr["steps"]],
+                          "session_input": session_text(pr["mode"], [x[0] for x in pr["steps"]]),
+                          "observed_transcript": out[-3000:]}, pr["key"]))
+
     n_prog = 60 if quick else 100000
     budget = 120 if quick else 17 * 60
     sizes = SIZES_QUICK if quick else SIZES_THOROUGH
@@ -392,14 +494,21 @@ def run(rep, tier):
                 viol.append(("harness: a rendered form is not read as one step by the port of scanIsContinued",
                              {"seed": f["seed"], "size": f["size"], "src": f["src"]}, None, True))
                 continue
+            skip_modes = known_defect_shapes(f["forms"])
+            if "quiet" in skip_modes:
+                st["skipped:toplevel-try(known defects, probes)"] += 1
+                continue
+            if "verbose" in skip_modes:
+                st["verbose-skipped:toplevel-try-or-if-else(known defects, probes)"] += 1
             size_hist[f["size"]] += 1
             nforms.append(len(f["forms"]))
             good_steps = build_interleaving(hsteps, f["forms"], [])
+            good_steps_v = build_interleaving(hsteps, f["forms"], [], "verbose")
             bads = [x for x in m["mutants"] if x["kind"] in USABLE_KINDS and cut_ok([x["bad_form"]])]
             prog = {"f": f, "hsteps": hsteps, "good_steps": good_steps, "bads": bads}
-            modes = ["quiet", "verbose", "history"] if (quick and done % 3 == 0) or not quick else ["quiet"]
+            modes = ["quiet", "verbose"] if "verbose" not in skip_modes else ["quiet"]
             for md in modes:
-                work.append(("good", md, prog, good_steps, None))
+                work.append(("good", md, prog, good_steps if md == "quiet" else good_steps_v, None))
             work.append(("batch", None, prog, None, None))
             # interleavings
             plans = []
@@ -413,9 +522,12 @@ def run(rep, tier):
                 for _ in range(2 if quick else 4):
                     k = rng.randrange(1, min(4, len(plans)) + 1)
                     ins = [(rng.choice(ps), x) for x, ps in rng.sample(plans, k)]
-                    work.append(("mixed", rng.choice(["quiet", "quiet", "verbose", "history"]), prog, None, ins))
-                # every position: one erroneous form entered before every form and at the end
+                    work.append(("mixed", rng.choice(["quiet", "quiet"] + [m for m in modes if m == "verbose"]), prog, None, ins))
+                # every position: one erroneous form entered before every form and at the end (a rejected FUNCTION
+                # definition at most twice per session: many of them corrupt the loop's state, finding `many-rejected-functions`)
                 for x, ps in plans[:(1 if quick else 4)]:
+                    if re.match(r"f\d+\(", x["bad_form"]):
+                        ps = rng.sample(ps, min(2, len(ps)))
                     work.append(("mixed", "quiet", prog, None, [(p, x) for p in ps]))
                 if not quick:
                     # every position, one session per position, for one erroneous form
@@ -430,7 +542,7 @@ def run(rep, tier):
             if what == "batch":
                 return w, None, run_batch(aldor, prog["f"]["src"], base)
             if what == "mixed":
-                steps = build_interleaving(prog["hsteps"], prog["f"]["forms"], [(p, x["bad_form"]) for p, x in ins])
+                steps = build_interleaving(prog["hsteps"], prog["f"]["forms"], [(p, x["bad_form"]) for p, x in ins], md)
             rc, out, err = run_loop(aldor, session_text(md, [s for s, _, _ in steps]), base)
             return w, steps, (rc, out + err)
         results = []
@@ -498,7 +610,7 @@ def run(rep, tier):
         obj = _replay_obj(what, md, steps, f, out)
         viol.append(("%s session (%s mode) of generated program seed %d size %d: %s"
                      % ("interleaved" if what == "mixed" else "good-forms", md, f["seed"], f["size"], cls),
-                     obj, "C13 %s %s %s" % (what, cls, _shape(steps))))
+                     obj, class_key(cls, steps, out) or "C13 %s %s %s" % (what, cls, _shape(steps))))
     for v in viol:
         rep.violation(v[0], v[1], key=v[2], no_input=(len(v) > 3))
 
@@ -548,9 +660,9 @@ def _replay_obj(what, md, steps, f, out):
             "observed_transcript": out[-6000:]}
 
 
-def _judge_steps(aldor, base, what, md, steps):
+def _judge_steps(aldor, base, what, md, steps, timeout=150):
     steps = [tuple(s) for s in steps]
-    rc, out, err = run_loop(aldor, session_text(md, [s for s, _, _ in steps]), base)
+    rc, out, err = run_loop(aldor, session_text(md, [s for s, _, _ in steps]), base, timeout)
     out += err
     if what == "good":
         cls = judge_good(md, steps, rc, out)
